@@ -36,19 +36,25 @@ def single(harness, line, ddp, timeout=20, mem_gb=8):
         return {"result": "crash", "diags": [], "faulty": None, "raw": (p.stderr.decode("utf-8", "replace")[:400] + " … " + p.stderr.decode("utf-8", "replace")[-400:])}
 
 
-def probe(harness, reqs, ddp=None, chunk_timeout=300):
+def probe(harness, reqs, ddp=None, chunk_timeout=120, max_failures=12):
+    """answers in request order; once max_failures requests have crashed / hung / panicked the remaining unanswered
+    ones are answered {'result': 'not-run'} (the check has failed anyway; a hang costs a time-out each)"""
     ddp = ddp or pipeline.build()
     lines = ["parse " + json.dumps(r, ensure_ascii=False).encode("utf-8").hex() for r in reqs]
     res = [None] * len(lines)
     pending = list(range(len(lines)))
     rounds = 0
+    failures = 0
     while pending and rounds < 40:
         rounds += 1
-        outs = run_lines(harness, [lines[i] for i in pending], timeout=chunk_timeout, env=_env(ddp), chunks=(NPROC if len(pending) >= 64 else 1))
+        outs = run_lines(harness, [lines[i] for i in pending], timeout=chunk_timeout, env=_env(ddp), chunks=(NPROC if len(pending) >= 64 else 1), mem_gb=4)
         nxt = []
         for i, o in zip(pending, outs):
-            if o.startswith("<crash"):
+            if failures >= max_failures and (o.startswith("<crash") or o == "<no-answer>"):
+                res[i] = {"result": "not-run", "diags": [], "faulty": None}
+            elif o.startswith("<crash"):
                 res[i] = single(harness, lines[i], ddp)
+                failures += res[i].get("result") not in ("ok", "error")
             elif o == "<no-answer>":
                 nxt.append(i)
             else:
@@ -58,5 +64,6 @@ def probe(harness, reqs, ddp=None, chunk_timeout=300):
                     res[i] = single(harness, lines[i], ddp)
         pending = nxt
     for i in pending:
-        res[i] = single(harness, lines[i], ddp)
+        res[i] = single(harness, lines[i], ddp) if failures < max_failures else {"result": "not-run", "diags": [], "faulty": None}
+        failures += res[i].get("result") not in ("ok", "error", "not-run")
     return res
